@@ -5,6 +5,13 @@
 (* time; Publish delivers synchronously to the subscribers of the namespace-wide *)
 (* key and of the specific key.  Property C40.                                   *)
 (*                                                                               *)
+(* Publish takes no lock: it loads the subscriber list of a key and then calls   *)
+(* Notify on each entry in turn, and Notify may block (rpc write, full channel). *)
+(* A publication is therefore not one step: PubBegin / PubLoad / PubDeliver /    *)
+(* PubEnd interleave with ApplySub / ApplyUnsub.  The lists are copy-on-write    *)
+(* (process() stores a new slice and never touches a stored one), so the         *)
+(* publisher keeps delivering to the list it loaded.                             *)
+(*                                                                               *)
 (* Keys: 0 is the namespace-wide key, k > 0 the key with parameter k.            *)
 (* TwoQueues = TRUE is the code: subscriptions and unsubscriptions travel in two *)
 (* channels and process() selects either when both are ready.  TwoQueues = FALSE *)
@@ -15,7 +22,9 @@
 EXTENDS Integers, Sequences, FiniteSets
 
 CONSTANTS Notifiers, Keys, TwoQueues, SkipAfterDelete,
-          MaxCalls       \* bound on the number of Subscribe calls (design check / generator)
+          MaxCalls,      \* bound on the number of Subscribe calls (design check / generator)
+          MaxPubs,       \* bound on the number of publications (design check)
+          SplitPub       \* TRUE: publications proceed step by step; FALSE: a publication is one step
 
 VARIABLES subs,    \* Keys -> Seq(Notifiers): the applied subscriptions (duplicates allowed)
           qs,      \* queued subscriptions: Seq of [n, k, at]   (at = position among all queued items)
@@ -25,10 +34,14 @@ VARIABLES subs,    \* Keys -> Seq(Notifiers): the applied subscriptions (duplica
           clock,   \* number of items queued so far
           reg,     \* history: set of <<n, k>> whose subscription has taken effect
           ov,      \* history: notifiers one of whose unsubscriptions was applied before the subscription it belongs to (Stuck)
-          out,     \* deliveries of the last Publish: Seq of <<n, k>>
+          nsub,    \* history: <<n, k>> -> number of subscriptions of n to k that have taken effect
+          fly,     \* the publication in flight (NoFly: none): parameter, keys still to visit, loaded list,
+                   \* position, deliveries so far, and what the statement needs from its beginning
+          npub,    \* number of publications begun
+          out,     \* deliveries of the last finished publication: Seq of <<n, k>>
           res      \* last action
 
-vars == <<subs, qs, qu, fired, calls, clock, reg, ov, out, res>>
+vars == <<subs, qs, qu, fired, calls, clock, reg, ov, nsub, fly, npub, out, res>>
 
 (***************************************************************************)
 (* pure operators (shared with generator and judge)                        *)
@@ -57,6 +70,9 @@ Deliveries(sb, p) ==
 CountNK(q, n, k) == Cardinality({i \in DOMAIN q : q[i].n = n /\ q[i].k = k})
 Stuck(s, u, n, k) == CountNK(u, n, k) < CountNK(s, n, k)
 
+NoFly == [p |-> -1]
+CountOf(s, x) == Cardinality({i \in DOMAIN s : s[i] = x})
+
 PendingUnsubs(q, n) == Cardinality({i \in DOMAIN q : q[i].n = n})
 Quiet(f, q, n) == n \in f /\ PendingUnsubs(q, n) = 0     \* fired, and every unsubscription it triggered was applied
 
@@ -66,6 +82,7 @@ Quiet(f, q, n) == n \in f /\ PendingUnsubs(q, n) = 0     \* fired, and every uns
 Init == /\ subs = [k \in Keys |-> <<>>]
         /\ qs = <<>> /\ qu = <<>> /\ fired = {} /\ calls = <<>> /\ clock = 0
         /\ reg = {} /\ ov = {} /\ out = <<>>
+        /\ nsub = [x \in Notifiers \X Keys |-> 0] /\ fly = NoFly /\ npub = 0
         /\ res = [op |-> "init"]
 
 \* Subscribe(n, k): queue the subscription; if n's error channel already fired its goroutine
@@ -78,7 +95,8 @@ Subscribe(n, k) ==
      THEN qu' = Append(qu, [n |-> n, k |-> k, at |-> clock + 2]) /\ clock' = clock + 2
      ELSE qu' = qu /\ clock' = clock + 1
   /\ out' = <<>> /\ res' = [op |-> "sub", n |-> n, k |-> k]
-  /\ UNCHANGED <<subs, fired, reg, ov>>
+  /\ fly' = IF fly = NoFly THEN fly ELSE [fly EXCEPT !.quiet0 = @ \ {n}]    \* subscribes anew: no longer "has left"
+  /\ UNCHANGED <<subs, fired, reg, ov, nsub, npub>>
 
 \* the error channel of n fires (is closed): every goroutine started for n queues its unsubscription
 Fire(n) ==
@@ -88,7 +106,7 @@ Fire(n) ==
      IN /\ qu' = qu \o [i \in 1..Len(mine) |-> [n |-> n, k |-> mine[i][2], at |-> clock + i]]
         /\ clock' = clock + Len(mine)
   /\ out' = <<>> /\ res' = [op |-> "fire", n |-> n]
-  /\ UNCHANGED <<subs, qs, calls, reg, ov>>
+  /\ UNCHANGED <<subs, qs, calls, reg, ov, nsub, fly, npub>>
 
 \* process(): case info := <-subInfoChan
 ApplySub ==
@@ -97,10 +115,11 @@ ApplySub ==
   /\ LET it == Head(qs)
      IN /\ subs' = [subs EXCEPT ![it.k] = Append(@, it.n)]
         /\ reg' = reg \cup {<<it.n, it.k>>}
+        /\ nsub' = [nsub EXCEPT ![<<it.n, it.k>>] = @ + 1]
         /\ res' = [op |-> "applysub", n |-> it.n, k |-> it.k]
   /\ qs' = Tail(qs)
   /\ out' = <<>>
-  /\ UNCHANGED <<qu, fired, calls, clock, ov>>
+  /\ UNCHANGED <<qu, fired, calls, clock, ov, fly, npub>>
 
 \* process(): case info := <-unsubInfoChan  (the i-th queued one: the goroutines send in any order)
 ApplyUnsub(i) ==
@@ -113,29 +132,82 @@ ApplyUnsub(i) ==
         /\ res' = [op |-> "applyunsub", n |-> it.n, k |-> it.k]
   /\ qu' = DropAt(qu, i)
   /\ out' = <<>>
-  /\ UNCHANGED <<qs, fired, calls, clock, reg>>
+  /\ UNCHANGED <<qs, fired, calls, clock, reg, nsub, fly, npub>>
 
+\* Publish(param p), step by step.  keys: the keys still to visit (the namespace-wide key first)
+QuietSet == {n \in Notifiers : Quiet(fired, qu, n)}
+\* a publication during which nothing else happens
 Publish(p) ==
+  /\ ~SplitPub /\ npub < MaxPubs
+  /\ npub' = npub + 1
   /\ out' = Deliveries(subs, p)
-  /\ res' = [op |-> "pub", p |-> p]
-  /\ UNCHANGED <<subs, qs, qu, fired, calls, clock, reg, ov>>
+  /\ res' = [op |-> "pubend", p |-> p, reg0 |-> {r \in reg : r[1] \notin fired}, quiet0 |-> QuietSet]
+  /\ UNCHANGED <<subs, qs, qu, fired, calls, clock, reg, ov, nsub, fly>>
+
+PubBegin(p) ==
+  /\ SplitPub /\ fly = NoFly /\ npub < MaxPubs
+  /\ npub' = npub + 1
+  /\ fly' = [p |-> p, keys |-> IF p = 0 THEN <<0>> ELSE <<0, p>>, loaded |-> FALSE, list |-> <<>>, pos |-> 0,
+             got |-> <<>>,
+             reg0 |-> {r \in reg : r[1] \notin fired},      \* registered and not left when it began
+             quiet0 |-> QuietSet]                             \* left, with every unsubscription applied, when it began
+  /\ out' = <<>> /\ res' = [op |-> "pubbegin", p |-> p]
+  /\ UNCHANGED <<subs, qs, qu, fired, calls, clock, reg, ov, nsub>>
+
+\* v, ok := s.keyToNotifier.Load(key)
+PubLoad ==
+  /\ fly # NoFly /\ ~fly.loaded
+  /\ fly' = [fly EXCEPT !.loaded = TRUE, !.list = subs[Head(fly.keys)], !.pos = 0]
+  /\ out' = <<>> /\ res' = [op |-> "pubload"]
+  /\ UNCHANGED <<subs, qs, qu, fired, calls, clock, reg, ov, nsub, npub>>
+
+\* sub.notifier.Notify(key, message) for the next entry of the loaded list
+PubDeliver ==
+  /\ fly # NoFly /\ fly.loaded /\ fly.pos < Len(fly.list)
+  /\ fly' = [fly EXCEPT !.pos = @ + 1, !.got = Append(@, <<fly.list[fly.pos + 1], Head(fly.keys)>>)]
+  /\ out' = <<>> /\ res' = [op |-> "pubdeliver"]
+  /\ UNCHANGED <<subs, qs, qu, fired, calls, clock, reg, ov, nsub, npub>>
+
+\* end of the loop over one key: next key, or Publish returns
+PubNext ==
+  /\ fly # NoFly /\ fly.loaded /\ fly.pos = Len(fly.list)
+  /\ IF Len(fly.keys) > 1
+     THEN /\ fly' = [fly EXCEPT !.keys = Tail(@), !.loaded = FALSE, !.list = <<>>, !.pos = 0]
+          /\ out' = <<>> /\ res' = [op |-> "pubnext"]
+     ELSE /\ fly' = NoFly
+          /\ out' = fly.got
+          /\ res' = [op |-> "pubend", p |-> fly.p, reg0 |-> fly.reg0, quiet0 |-> fly.quiet0]
+  /\ UNCHANGED <<subs, qs, qu, fired, calls, clock, reg, ov, nsub, npub>>
 
 Next == \/ \E n \in Notifiers, k \in Keys : Subscribe(n, k)
         \/ \E n \in Notifiers : Fire(n)
         \/ ApplySub
         \/ \E i \in DOMAIN qu : ApplyUnsub(i)
-        \/ \E p \in Keys : Publish(p)
+        \/ \E p \in Keys : Publish(p) \/ PubBegin(p)
+        \/ PubLoad \/ PubDeliver \/ PubNext
 
 Spec == Init /\ [][Next]_vars
 
 (***************************************************************************)
 (* properties                                                              *)
 (***************************************************************************)
-\* a subscriber whose registration has taken effect and whose error channel has not fired
-\* receives every message published for its key or the namespace-wide key ...
+\* a subscriber whose registration had taken effect when the publication began, and whose error
+\* channel has not fired by the time it ends, receives the message published for its key or the
+\* namespace-wide key ...
 EveryLaterMessage ==
-  res.op = "pub" =>
-    \A r \in reg : (r[1] \notin fired /\ r[2] \in {0, res.p}) => \E i \in DOMAIN out : out[i] = r
+  res.op = "pubend" =>
+    \A r \in res.reg0 : (r[1] \notin fired /\ r[2] \in {0, res.p}) => \E i \in DOMAIN out : out[i] = r
+
+\* ... once per subscription at most (the received sequence is the published one)
+NoDuplicateDelivery ==
+  res.op = "pubend" => \A x \in Notifiers \X Keys : CountOf(out, x) <= nsub[x]
+
+\* a notifier that had left (fired, every unsubscription applied, none overtaken) when the publication
+\* began receives nothing from it
+NoneToThoseWhoLeftInOrder ==
+  res.op = "pubend" => \A i \in DOMAIN out : ~(out[i][1] \in res.quiet0 /\ out[i][1] \notin ov)
+NoneToThoseWhoLeft ==
+  res.op = "pubend" => \A i \in DOMAIN out : out[i][1] \notin res.quiet0
 
 \* ... (mechanism form: it is on the list)
 StaysSubscribed == \A r \in reg : r[1] \notin fired => r[1] \in Members(subs[r[2]])
